@@ -500,7 +500,7 @@ class UnionMetaType(StructureMetaType):
             buf.seek(offset + start)
             value = field_type._read(buf, result)
 
-            sizes[field._name] = buf.tell() - start
+            sizes[field._name] = buf.tell() - offset - start
             result[field._name] = value
 
         return result, sizes
